@@ -424,8 +424,15 @@ def workspace_monitor(root, dag, scripts=None, hash_ws=False):
         ws = os.path.normpath(raw)
         if ws in seen:
             other = seen[ws]
-            cause = "names-differ-only-in-stripped-characters" if _san(other) == _san(key) \
-                else "other"
+            def degenerate(path):
+                return any(c in ("", ".", "..") for c in path[len(root):].lstrip("/").split("/"))
+            if _san(other) == _san(key):
+                cause = "names-differ-only-in-stripped-characters"
+            elif degenerate(raw) or degenerate(dag.values[other].workspace.value):
+                # 'a/..' and 'b/..' both normalise to the study root
+                cause = "component-sanitises-to-empty-or-dots"
+            else:
+                cause = "other"
             mon.append(("distinct-workspaces", "%s cause=%s: instances %r and %r share workspace %s"
                         % (tag, cause, other, key, ws)))
         seen[ws] = key
